@@ -30,6 +30,21 @@ static scpi_result_t c01_misc(scpi_t * context) {
     SCPI_IsCmd(context, ":T#:M?");
     SCPI_IsCmd(context, "*IDN?");
     SCPI_Match("TEST#:MISC[:X#]?", "test1:misc2?", 12);
+    {
+        /* SCPI_Match takes an explicit length: the text need not be terminated. Exact-size copies of the header as written and of
+         * keywords that end in suffix digits (a read behind them traps) */
+        size_t n = context->param_list.cmd_raw.length; char * h = (char *) malloc(n ? n : 1);
+        static const char * const kw[] = { "CH12", "ch1", "TEST7:MISC:X9", "OUTP00000000003", "X2147483647" };
+        size_t i;
+        memcpy(h, context->param_list.cmd_raw.data, n);
+        SCPI_Match("TEST#:MISC[:X#]?", h, n); SCPI_Match("TEST#:VALue#[:SUB#]", h, n);
+        free(h);
+        for (i = 0; i < sizeof kw / sizeof kw[0]; i++) {
+            size_t k = strlen(kw[i]); char * e = (char *) malloc(k); memcpy(e, kw[i], k);
+            SCPI_Match("CH#", e, k); SCPI_Match("TEST#:MISC[:X#]", e, k); SCPI_Match("OUTPut#", e, k); SCPI_Match("X#", e, k);
+            free(e);
+        }
+    }
     if (SCPI_ParamNumber(context, scpi_special_numbers_def, &n, FALSE)) { SCPI_NumberToStr(context, scpi_special_numbers_def, &n, str, sizeof str); SCPI_ResultCharacters(context, str, strlen(str)); }
     SCPI_ParamErrorOccurred(context);
     SCPI_ResultArrayInt8(context, (const int8_t *) c01_blob, 3, SCPI_FORMAT_ASCII);
